@@ -246,7 +246,7 @@ func runC01() {
 		srcs = append(srcs, g.expr(t, 2+rng.Intn(3)))
 	}
 	modes := []coreMode{modeUntyped, modeTyped, modeTypedOpt}
-	var cases []string
+	var cases, byteCases []string
 	distinct := map[string]bool{}
 	for _, src := range srcs {
 		for _, m := range modes {
@@ -274,7 +274,11 @@ func runC01() {
 				} else {
 					rep.hist("run fails " + cls)
 				}
-				cases = append(cases, coreCase(false, m.Cast, vm.MemoryBudget, ei, tree, prog, r))
+				cs := coreCase(false, m.Cast, vm.MemoryBudget, ei, tree, prog, r)
+				cases = append(cases, cs)
+				if ei == 0 {
+					byteCases = append(byteCases, cs)
+				}
 				if nontrivial {
 					distinct[fmt.Sprintf("%s|%s|%d", src, m.Name, ei)] = true
 				}
@@ -287,5 +291,7 @@ func runC01() {
 		rep.Samples = append(rep.Samples, srcs[(i*7919+13)%len(srcs)])
 	}
 	rep.writeShards("cases_c01", coreHeader(envs), "ccase", "core_mismatches fe", cases)
+	// every (source, mode) once more against the BYTE-level model of the compiler (BC/Assemble.v)
+	rep.writeShards("cases_c01b", strings.Replace(coreHeader(envs), "X.Corr.CorrCore.", "X.Corr.CorrCore X.Corr.CorrC05b.", 1), "ccase", "c05b_mismatches", byteCases)
 	rep.write()
 }
